@@ -629,7 +629,9 @@ func (w *c14World) do(s c14Step, ev *c14Event) bool {
 		err := w.db.Refresh(ctx)
 		if storeFails {
 			_ = os.RemoveAll(w.path)
-			if err == nil || !strings.Contains(err.Error(), "saving cache") {
+			// (a refresh that reports nothing here did not try to write the file: either way there is no
+			// cache file now, which is what the bookkeeping below assumes)
+			if err != nil && !strings.Contains(err.Error(), "saving cache") {
 				w.t.Fatalf("refresh with an unwritable cache file: %v", err)
 			}
 			err = nil
